@@ -425,6 +425,9 @@ class FSM(object):
         if self.state in (bgp_cons.ST_OPENSENT, bgp_cons.ST_OPENCONFIRM):
             # State OpenSent, event 24
             self.connect_retry_timer.cancel()
+            # the session is over: its hold and keepalive timers must not outlive it
+            self.hold_timer.cancel()
+            self.keep_alive_timer.cancel()
             self._close_connection()
             self.state = bgp_cons.ST_IDLE
         elif self.state in (bgp_cons.ST_CONNECT, bgp_cons.ST_ACTIVE, bgp_cons.ST_ESTABLISHED):
